@@ -73,7 +73,8 @@ Definition get_ddList_entry (e : einfo) (ks : list anode) : res str :=
              end
          | Ok (AX _ :: _) => Err ModelError
          end ;;
-  of_opt IndexError (py_nth vals idx).
+  (* try: list_entries[list_index] except IndexError: "" *)
+  Ok (match py_nth vals idx with Some x => x | None => [] end).
 
 (* ---------- string constants of the handlers ---------- *)
 Definition raw (s : str) : list tok := map TRaw s.
@@ -179,7 +180,7 @@ Definition open_tag (v : env) (path : list nat) (t : anode) (e : einfo) (ks : li
   else if str_eqb tg tag_SYM then
     font <- attr_w e s_font ;;
     chr <- attr_w e s_char ;;
-    let chr := ostr_or_None chr in
+    let chr := ostr chr in
     match chr with
     | [] => Ok (s, true)
     | _ :: tl =>
@@ -270,9 +271,10 @@ Fixpoint walk (v : env) (path : list nat) (t : anode) (s : cst) {struct t} : res
   | AE e ks =>
       let d := elem_depth t in
       s1 <- set_caret d (Some (e_local e)) s ;;
-      (* _get_text_below: one fresh collector per child of a hyperlink *)
+      (* _get_text_below: one fresh collector per child of a hyperlink; the
+         flattened texts of the children are concatenated *)
       body <- (if str_eqb (e_ptag e) tag_HYPERLINK then
-                 (fix below (l : list anode) (i : nat) : res (list (list tok)) :=
+                 (fix below (l : list anode) (i : nat) : res (list tok) :=
                     match l with
                     | [] => Ok []
                     | k :: r =>
@@ -280,10 +282,10 @@ Fixpoint walk (v : env) (path : list nat) (t : anode) (s : cst) {struct t} : res
                         sk' <- finish v sk ;;
                         ps <- tree_par_toks (c_tree sk') ;;
                         rest <- below r (S i) ;;
-                        Ok (ps ++ rest)
+                        Ok (join_toks par_sep ps ++ rest)
                     end) ks O
                else Ok []) ;;
-      '(s2, recurse) <- open_tag v path t e ks (join_toks par_sep body) s1 ;;
+      '(s2, recurse) <- open_tag v path t e ks body s1 ;;
       s3 <- (if recurse : bool then
                (fix kids (l : list anode) (i : nat) (s : cst) : res cst :=
                   match l with
